@@ -41,8 +41,9 @@ async def emit_case(case):
         c.configure(credentials=creds)
     else:
         c = Client("192.0.2.1", creds, sender=sender, context_name=bytes(case.get("ctxname", b"")), engine_id=bytes(case.get("ctxengine", b"")))
-    real = U.time
-    U.time = lambda: case["reqid"]
+    import puresnmp.api.raw, puresnmp_plugins.security.usm  # noqa  (so that patched_clock sees every holder of get_request_id)
+    _clk = patched_clock(None, request_id=lambda: case["reqid"])
+    _clk.__enter__()
     op = case["op"]
     oids = [OID(".".join(map(str, o))) for o in case["oids"]]
     vals = case.get("vals", [])
@@ -71,7 +72,7 @@ async def emit_case(case):
     except Exception as e:  # noqa   the reply is irrelevant here; only what was emitted counts
         err = exc_name(e)
     finally:
-        U.time = real
+        _clk.__exit__(None, None, None)
     events = []
     reqid = canon_int(case["reqid"])
     is_set = op in ("set", "multiset")
@@ -150,8 +151,9 @@ async def deliver_case(case):
         out["raw"], out["plain"] = raw, scoped if (proto in USERS and USERS[proto].priv) else b""
         return raw
     c = make_client(ag, proto, sender=sender)
-    real = U.time
-    U.time = lambda: case.get("reqid", 1000)
+    import puresnmp.api.raw, puresnmp_plugins.security.usm  # noqa
+    _clk = patched_clock(None, request_id=lambda: case.get("reqid", 1000))
+    _clk.__enter__()
     try:
         try:
             api = case.get("api", "multiget")
@@ -171,7 +173,7 @@ async def deliver_case(case):
         except Exception as e:  # noqa
             got = dict(kind="exc", cls=exc_name(e), vals=[])
     finally:
-        U.time = real
+        _clk.__exit__(None, None, None)
     ev = [dict(e="deliver", raw=list(out.get("raw", b"")), plain=list(out.get("plain", b"")),
                intended=[val_form(k, v) for k, v, _ in case["values"]], got=got)]
     return ev, out
